@@ -19,7 +19,8 @@ VERIF = os.path.dirname(os.path.dirname(os.path.abspath(__file__)))
 REPO = os.environ.get("HIERARC_REPO", "/repo")
 PY = "/venv/bin/python"
 BASE = os.path.join(VERIF, "coq", "Base")
-BUILD = os.path.join(VERIF, "build")
+BUILD = os.environ.get("VERIF_BUILD", os.path.join(VERIF, "build"))
+EVIDENCE = os.environ.get("VERIF_EVIDENCE", os.path.join(VERIF, "evidence"))
 AXIOM_WHITELIST = {
     # Coq standard library, Reals
     "ClassicalDedekindReals.sig_forall_dec", "ClassicalDedekindReals.sig_not_dec",
@@ -129,7 +130,7 @@ def run_property(pid, tier, seed, replay=None):
     os.makedirs(os.path.join(BUILD, "replay"), exist_ok=True)
     log = []
     env = dict(os.environ, PYTHONPATH=REPO, PYTHONHASHSEED="0", HIERARC_REPO=REPO, VERIF_SEED=str(seed), VERIF_TIER=tier,
-               OMP_NUM_THREADS="2", OPENBLAS_NUM_THREADS="2", MPLBACKEND="Agg")
+               OMP_NUM_THREADS="1", OPENBLAS_NUM_THREADS="1", MKL_NUM_THREADS="1", MPLBACKEND="Agg")
     broken = []          # proof obligations / correspondence that no longer check: dicts(kind, name, detail)
     obligations, discharged, theorems, axioms = 0, 0, [], set()
 
@@ -152,7 +153,7 @@ def run_property(pid, tier, seed, replay=None):
 
     # 2. compile
     files = (["Src.v"] if spec else []) + cfg.get("files", [])
-    per_file_timeout = cfg.get("coqc_timeout", 400)
+    per_file_timeout = cfg.get("coqc_timeout", 150 if tier == "quick" else 400)
     vpaths = []
     for f in cfg.get("files", []):
         shutil.copy(os.path.join(pdir, f), os.path.join(bdir, f))
@@ -293,8 +294,8 @@ def run_property(pid, tier, seed, replay=None):
                             explanation=cfg.get("explanation", "")),
               assumptions=cfg.get("hypotheses", []) + cfg.get("not_modelled", []),
               wall_s=round(time.time() - t0, 2), violations=nviol)
-    os.makedirs(os.path.join(VERIF, "evidence"), exist_ok=True)
-    json.dump(ev, open(os.path.join(VERIF, "evidence", pid + ".json"), "w"), indent=1)
+    os.makedirs(EVIDENCE, exist_ok=True)
+    json.dump(ev, open(os.path.join(EVIDENCE, pid + ".json"), "w"), indent=1)
     for l in lines:
         print(l)
     print("%s %s: obligations=%d discharged=%d corr_cases=%s oracle_evals=%s broken=%d violations=%d known=%d wall=%.0fs" % (
